@@ -281,3 +281,6 @@ def _evaluate(case):
     return {"violations": viol, "evaluations": evals, "nontrivial": reached, "outcome": "explored",
             "sample": {"placement": case["placement"], "prepop": case["prepop"], "sweep": case["sweep"],
                        "history": [repr(e).replace(sc.root, "") for e in rec["events"]][:12]}}
+
+
+RULE += ' Since round 11 also: DIR pre-populated with the upper part of the hierarchy in private modes (modes of pre-existing directories compared).'
